@@ -348,6 +348,18 @@ Definition site_ok (s : site) : bool :=
     else is_tmp cls || in_place fn op cls
   else true.
 
+(** A staging file (a path of class tmp(...)) that is opened for writing starts EMPTY: it is
+    created with os.Create, or its OpenFile flags contain O_TRUNC (the wrapper site that
+    merely forwards its caller's flags is judged at the callers).  A staging name may be left
+    over from a process that was killed while it wrote a longer file; what is renamed into
+    place afterwards must not carry that file's tail (seed C10d: Restore's <output>.tmp
+    opened with O_RDWR|O_CREATE). *)
+Definition staging_open_ok (s : site) : bool :=
+  let '(fn, _, op, cls, flags, _) := s in
+  if is_openfile op && contains "tmp(" cls && negb (flags_readonly flags) && negb (in_place fn op cls)
+  then mem_str "O_TRUNC" flags || mem_str "forwarded" flags
+  else true.
+
 (** ------------------------------------------------------------------ *)
 (** * Transaction release discipline (regenerated [Gen.TxSites])
 
